@@ -17,8 +17,8 @@
 2. `b''.join(xs)` for a list of byte strings of symbolic length: the result is an uninterpreted function of the list
    (the same `pyvc_bytes_join` the core uses) whose *length* is specified: len(join(xs)) == lensum(xs) with
        lensum([]) == 0,   lensum(xs + [y]) == lensum(xs) + len(y)            (CPython: b''.join concatenates)
-   `lensum` is a z3 recursive function on the *last* element, so appending one element unfolds by definition.
-   `joined_len(xs)` is the spec form of lensum for contracts (natively len(b''.join(xs))).
+   `lensum` is uninterpreted for the solvers; the two defining equations are instantiated on the terms of those
+   shapes that the execution produces (list.append gives xs ++ [y]).
 """
 from __future__ import annotations
 
@@ -203,27 +203,89 @@ values.EXT_KINDS['rec'] = RecKind()
 # 2. length of b''.join(list of byte strings of symbolic length)
 # ---------------------------------------------------------------------------
 _BSEQ = z3.SeqSort(IntSeq)
-_S = z3.Const('__js', _BSEQ)
-LENSUM = z3.RecFunction('pyvc_lensum', _BSEQ, z3.IntSort())
-z3.RecAddDefinition(
-    LENSUM,
-    [_S],
-    z3.If(z3.Length(_S) == 0, z3.IntVal(0), LENSUM(z3.Extract(_S, 0, z3.Length(_S) - 1)) + z3.Length(_S[z3.Length(_S) - 1])),
-)
+# lensum: sum of the lengths of the elements.  Uninterpreted for the solvers; its defining equations
+#   lensum([]) == 0,  lensum(xs ++ [y]) == lensum(xs) + len(y),  lensum >= 0
+# are added as facts for the terms of these shapes that occur (lensum_facts) -- pure EUF + linear arithmetic
+LENSUM = z3.Function('pyvc_lensum', _BSEQ, z3.IntSort())
 JOIN = z3.Function('pyvc_bytes_join', IntSeq, _BSEQ, IntSeq)
 
 
-def lensum_facts(ex, t):
-    """hints: unfold lensum once at the syntactic shapes the engine produces (empty, xs ++ [y]), and lensum >= 0"""
+def _is(t, kind):
+    return z3.is_app(t) and t.decl().kind() == kind
+
+
+def _split_last(t):
+    """(init, last element) if t has the shape init ++ [y]"""
+    if _is(t, z3.Z3_OP_SEQ_UNIT):
+        return z3.Empty(t.sort()), t.arg(0)
+    if _is(t, z3.Z3_OP_SEQ_CONCAT) and t.num_args() >= 2 and _is(t.arg(t.num_args() - 1), z3.Z3_OP_SEQ_UNIT):
+        init = t.arg(0) if t.num_args() == 2 else z3.Concat(*[t.arg(i) for i in range(t.num_args() - 1)])
+        return init, t.arg(t.num_args() - 1).arg(0)
+    return None
+
+
+def _comp_entry(t):
+    """the seqspec record of the comprehension function applied in t = compK(s, ...)"""
+    if z3.is_app(t) and t.num_args() >= 1:
+        for ent in seqspec._REC_CACHE.values():
+            if ent['F'].eq(t.decl()):
+                return ent
+    return None
+
+
+def lensum_facts(ex, t, depth=0):
+    """definitional facts about lensum(t) for the shapes the engine produces:
+    [], xs ++ [y] (list.append), and compK(xs ++ [x]) (a comprehension over an appended list: by the snoc lemma of
+    seqspec it is compK(xs) ++ [m(x)], the instance is added where the comprehension is evaluated)"""
     t = z3.simplify(t)
     ex.add_def(LENSUM(t) >= 0)
-    if z3.is_app(t) and t.decl().kind() == z3.Z3_OP_SEQ_EMPTY:
+    if _is(t, z3.Z3_OP_SEQ_EMPTY):
         ex.add_def(LENSUM(t) == 0)
-    elif z3.is_app(t) and t.decl().kind() == z3.Z3_OP_SEQ_UNIT:
-        ex.add_def(LENSUM(t) == z3.Length(t[0]))
-    elif z3.is_app(t) and t.decl().kind() == z3.Z3_OP_SEQ_CONCAT and t.num_args() >= 2:
-        last = t.arg(t.num_args() - 1)
-        if z3.is_app(last) and last.decl().kind() == z3.Z3_OP_SEQ_UNIT:
-            init = t.arg(0) if t.num_args() == 2 else z3.Concat(*[t.arg(i) for i in range(t.num_args() - 1)])
-            ex.add_def(LENSUM(t) == LENSUM(init) + z3.Length(last.arg(0)))
-            ex.add_def(LENSUM(init) >= 0)
+        return
+    sp = _split_last(t)
+    if sp is not None:
+        init, y = sp
+        ex.add_def(LENSUM(t) == LENSUM(init) + z3.Length(y))
+        if depth < 2:
+            lensum_facts(ex, init, depth + 1)
+        return
+    ent = _comp_entry(t)
+    if ent is not None and z3.is_true(z3.simplify(ent['c'])):
+        sp = _split_last(z3.simplify(t.arg(0)))
+        if sp is not None:
+            init, x = sp
+            actuals = [t.arg(i) for i in range(1, t.num_args())]
+            fi = ent['F'](init, *actuals)
+            mx = z3.substitute(ent['m'], (ent['ph_e'], x), *zip(ent['phs'], actuals))
+            rhs = z3.Concat(fi, z3.Unit(mx))
+            # t == rhs is the snoc instance (seqspec); lensum of the right-hand side unfolds by definition
+            ex.add_def(LENSUM(rhs) == LENSUM(fi) + z3.Length(mx))
+            ex.add_def(LENSUM(fi) >= 0)
+
+
+def _join_hook(ex, recv, args, kwargs):
+    """b''.join(list of byte strings of symbolic length)"""
+    from .engine import mk_bytes, zbytes
+    from .models_calls import BYTES_METHOD_HOOKS  # noqa: F401
+
+    if len(args) != 1 or kwargs or ex.concrete_iter(args[0]) is not None:
+        return NotImplemented
+    sep = ex.as_bytes_value(recv)
+    seq = ex.as_symseq(args[0])
+    if seq is None or seq.k != ('seq', 'bytes') or not isinstance(sep, bytes) or sep != b'':
+        return NotImplemented
+    ex.abstraction_used = True
+    r = JOIN(zbytes(sep), seq.t)
+    ex.add_def(z3.Length(r) == LENSUM(seq.t))
+    lensum_facts(ex, seq.t)
+    return mk_bytes(r)
+
+
+def install():
+    from . import models_calls
+
+    models_calls.BYTES_METHOD_HOOKS['join'] = _join_hook
+    seqspec.SNOC_LEMMA = True
+
+
+install()
